@@ -1,5 +1,6 @@
 import runner as R
 from props import *
+import C04_more
 
 MANIFEST = dict(
     text="Proved in Lean for every raw producer script (legal or not): the subscriber/observer gate delivers a Grammar-conforming prefix and delivered++dropped = raw "
@@ -11,8 +12,11 @@ MANIFEST = dict(
 
 def check(ctx):
     rows = R.run_kind(ctx, 'ops')
-    R.compare(ctx, rows, proj_grammar, 'C01 grammar/drops of every operator over raw scripts', oracle=oracle_grammar, nontrivial=nontrivial_op)
-    return dict(rule='every catalogue operator x parameters x variants x raw scripts (exhaustive to length 2/3 over {-1,0,2,3}, three endings, '
+    R.compare(ctx, rows, proj_grammar, 'C01 grammar/drops of every operator over raw scripts', oracle=oracle_grammar, oracle_is_property=True, nontrivial=nontrivial_op)
+    rows = R.run_kind(ctx, 'chains')
+    R.compare(ctx, rows, proj_grammar, 'C01 grammar/drops through chains', oracle=oracle_grammar, oracle_is_property=True, nontrivial=lambda c, gd: gd.get('trace', '-') != '-')
+    C04_more.parts_C01(ctx)
+    return dict(rule='random chains of 2-5 int->int operators (sync/hot, cuts) + ' + 'every catalogue operator x parameters x variants x raw scripts (exhaustive to length 2/3 over {-1,0,2,3}, three endings, '
                      'illegal suffixes N/C/E after the terminal, seeded longer scripts) x {sync, hot} source x external cut; '
                      'compared: kinds of delivered notifications + multiset of dropped notifications; oracle: Grammar on the implementation trace; '
                      'non-trivial = script has a value and something was delivered or dropped')
